@@ -465,16 +465,17 @@ impl Engine for WrapEngine {
                     }
                     "drop" => match slots[slot].take() {
                         Some(e) => {
-                            if entered.iter().any(|x| x.0 == e.uid) {
-                                // never make an exit the operation that closes a span (that is finding F13)
+                            if entered.iter().any(|x| x.0 == e.uid) && crate::driver::finding_open("F13") {
+                                // while F13 is open: never make an exit the operation that closes a span
                                 h.applied = false;
                                 slots[slot] = Some(e);
                             } else {
                                 h.uid = e.uid;
                                 h.id = e.span.id().map(|i| i.into_u64()).unwrap_or(0);
+                                let still_entered = entered.iter().any(|x| x.0 == e.uid);
                                 if let Some(n) = handles.get_mut(&e.uid) {
                                     *n -= 1;
-                                    h.closes = *n == 0;
+                                    h.closes = *n == 0 && !still_entered;
                                 }
                                 drop(e.span);
                             }
@@ -497,6 +498,8 @@ impl Engine for WrapEngine {
                         Some((u, id, d)) => {
                             h.uid = u;
                             h.id = id.into_u64();
+                            // the exit closes the span if its last handle was dropped while it was entered
+                            h.closes = handles.get(&u).map_or(false, |n| *n == 0);
                             d.exit(&id);
                         }
                         None => h.applied = false,
@@ -592,7 +595,12 @@ fn oracle(plan: &Value, hist: &[H], log: &[LRec], leaves: &[usize], base: &str, 
                 }
             }
             "enter" => want.push("on_enter"),
-            "exit" => want.push("on_exit"),
+            "exit" => {
+                want.push("on_exit");
+                if base != "rec" && h.closes {
+                    want.push("on_close");
+                }
+            }
             "record" => want.push("on_record"),
             "follows" => want.push("on_follows_from"),
             "event" => {
@@ -629,6 +637,15 @@ fn oracle(plan: &Value, hist: &[H], log: &[LRec], leaves: &[usize], base: &str, 
             let ids: Vec<(u64, u64, u64)> = win.iter().filter(|r| r.kind == *k).map(|r| (r.id, r.id2, r.val)).collect();
             if ids.windows(2).any(|w| w[0] != w[1]) {
                 violation("notification-differs", format!("op {} ({}): layers saw different arguments for {}: {:?}", h.gi, h.op, k, ids));
+                return;
+            }
+        }
+        // an exit that releases the last reference: every layer hears on_exit before anybody hears on_close
+        if h.op == "exit" && h.closes && base != "rec" {
+            let last_exit = win.iter().filter(|r| r.kind == "on_exit").map(|r| r.stamp).max().unwrap_or(0);
+            let first_close = win.iter().filter(|r| r.kind == "on_close").map(|r| r.stamp).min().unwrap_or(u64::MAX);
+            if first_close < last_exit {
+                violation("notification-order", format!("op {} (exit that closes span uid {}): on_close was delivered before every layer had received on_exit", h.gi, h.uid));
                 return;
             }
         }
